@@ -51,7 +51,10 @@ def gen(rng, size='small'):
         ext += [['run', a], ['run', horizon - a]]
     else:
         ext.append(['run', horizon])
-    return dict(seed=rng.randint(0, 1000), mod=rng.choice([1, 3, 1 << 20]), entities=ents, pools=[], uops=[], ext=ext, focus='line')
+    sc = dict(seed=rng.randint(0, 1000), mod=rng.choice([1, 3, 1 << 20]), entities=ents, pools=[], uops=[], ext=ext, focus='line')
+    if rng.random() < 0.2:
+        sc['tick'] = 1024      # the same line on a grid of 1/1024: exactly representable times that need ten decimal digits
+    return sc
 
 
 def reference(ents, n):
